@@ -447,7 +447,7 @@ inline std::uint16_t byteswap(std::uint16_t v) noexcept
 
 inline std::uint16_t byteswap(std::uint16_t v) noexcept
 {
-    return __builtin_bswap32(v) << 16;
+    return __builtin_bswap32(v) >> 16;
 }
 
 #        endif
